@@ -74,6 +74,7 @@ struct TaskPlan { std::vector<Op> ops; };
 
 struct Plan {
   std::string engine, batch;
+  std::string data = "shipped";   // data configuration the plan was found in: shipped | K (Kissel table regenerated)
   uint64_t seed = 0, runseed = 0;
   int locale = LOC_C;
   std::vector<Op> setup;          // executed by the controller before tasks start (shared read-only objects)
